@@ -108,7 +108,10 @@ let eval (t : string list) : string =
   | [ "P"; hex ] ->
       let bs = bytes_of_hex_fast hex in
       let n = dec (parse_alloc bs) and b = dec (alloc_bound (z_of_int (Stdlib.List.length bs))) in
-      (match parse bs with Ok _ -> "ok alloc<=" ^ n ^ " bound=" ^ b | Err _ -> "parse-err alloc<=" ^ n ^ " bound=" ^ b | Panic -> "panic")
+      (* the accounting run must take the same path as the reader *)
+      let cls = function Ok _ -> "ok" | Err _ -> "parse-err" | Panic -> "panic" in
+      if cls (parse bs) <> cls (parse_alloc_result bs) then "driver-error:accounting-diverges"
+      else (match parse bs with Ok _ -> "ok alloc<=" ^ n ^ " bound=" ^ b | Err _ -> "parse-err alloc<=" ^ n ^ " bound=" ^ b | Panic -> "panic")
   | [ "O"; fld; ext; mw; aw; ncols; hex ] ->
       (match parse_prefix read_OodFrame (bytes_of_hex_fast hex) with
        | Err _ -> "parse-err" | Panic -> "panic"
